@@ -5,7 +5,7 @@ CFG = {'assumptions': ['containers are not modelled here (C14)'],
  'harness': [{'bin': 'h_egg', 'extra': ['--prop', 'C04'], 'name': 'h_egg', 'prefix': 'cases_egg'}],
  'link_only': "the same invariant evaluated on the REAL engine's dump after every command including failed "
               'ones (rule panic, :no-merge conflict, failing primitive) via hook H0 (canonical id accessor); '
-              'serialised e-graph agreement not yet checked',
+              'the serialised e-graph (node count per function, number of e-classes) compared with the read API after every command',
  'model_targets': ['Egg/Rules.vo'],
  'proof_targets': ['Props/C04.vo'],
  'theorem_backed': 'c04_inv_reachable: after every command of every history the model state is canonical '
